@@ -68,6 +68,17 @@ def gen_one(rng, tier):
             ops.append(['set', gen_key(rng, names, maxdepth), v])
         else:
             ops.append(['layer_set', gen_key(rng, names, 2)])
+    # the tree changes below the root with a sub-map as the receiver (an
+    # assignment through the sub-map object, a sub-map cleared) after a
+    # snapshot of the root was taken: the next snapshot shows the tree as it
+    # is then
+    for _ in range(rng.choice([0, 0, 1, 2])):
+        at = rng.randrange(len(ops) + 1)
+        if rng.random() < 0.7:
+            ops.insert(at, ['set_via', gen_key(rng, names, 2),
+                            gen_key(rng, names, 2), 'h'])
+        else:
+            ops.insert(at, ['clear', gen_key(rng, names, 2)])
     return {'ops': ops, 'absent': [rng.choice(NAMES) + 'q', 'nope', 'zz9']}
 
 
@@ -105,6 +116,14 @@ def run_case(case):
             res.tags['earlier_snapshot_taken'].add(True)
         if op[0] == 'set':
             drv.set(op[1], op[2])
+        elif op[0] in ('set_via', 'clear'):
+            drv.root.get_static_map()       # taken and dropped
+            if op[0] == 'set_via':
+                done = drv.set_via(op[1], op[2], op[3])
+            else:
+                done = drv.clear(op[1])
+            if done:
+                res.tags['changed_through_submap_after_snapshot'].add(op[0])
         else:
             drv.layer_set(op[1])
     root = drv.root
